@@ -1403,6 +1403,30 @@ Section NoOther.
     destruct (setitem (KName k) v s) as [s' [u|e]]; simpl in *; [apply IH; exact S2|exact S1].
   Qed.
 
+  (* fix cf99a8a: a dtype that adds a dimension (sub-array dtypes such as '2f8') never creates a variable: the call raises and the
+     object is exactly what it was; DimensionError whenever the name is free and the operand converts *)
+  Theorem subarray_dtype_rejected name value r s :
+    adds_dim r = true -> exists e, base_add_variable name value (Some r) s = (s, Raise e).
+  Proof.
+    intros A. unfold Container.base_add_variable.
+    destruct (mem name (index s)); [eexists; reflexivity|].
+    destruct (storage_taken name s); [eexists; reflexivity|].
+    match goal with |- context [match ?x with Ret _ => _ | Raise _ => _ end] => destruct x as [[[d0 m0] cells0]|e] end; [|eexists; reflexivity].
+    destruct (cast_all (arrcast d0 (astype_dt d0 cells0 r)) cells0) as [cs|e]; [|eexists; reflexivity].
+    rewrite A. eexists; reflexivity.
+  Qed.
+
+  Theorem add_variable_subarray_rejected name value dt s :
+    match dt with Some r => adds_dim r = true | None => kind s <> CVC /\ exists r, dflt s = Some r /\ adds_dim r = true end ->
+    exists e, add_variable name value dt s = (s, Raise e).
+  Proof.
+    unfold Container.add_variable. destruct dt as [r|].
+    - intros A. destruct (subarray_dtype_rejected name value r s A) as [e E].
+      destruct (kind s); rewrite E; eexists; reflexivity.
+    - intros [K [r [Dd A]]]. destruct (subarray_dtype_rejected name value r s A) as [e E].
+      destruct (kind s); [contradiction| |]; rewrite Dd, E; eexists; reflexivity.
+  Qed.
+
   Lemma base_add_variable_no_other name value dt s : snd (base_add_variable name value dt s) <> Raise OtherError.
   Proof.
     unfold Container.base_add_variable.
